@@ -16,7 +16,7 @@ RULE = ('Engine B: explicit-state BFS over the real HeapDict for capacities k in
         'On every transition: get_result equals the model (k largest as a multiset, descending), reading twice gives '
         'the same answer, reading (and mutating the returned snapshot) leaves the container fingerprint unchanged. '
         'Engine A part: every search of the C01 quick space with n_designs in {1,2,5}: len <= n_designs, scores '
-        'non-increasing. evaluations / distinct_nontrivial count the search part (non-trivial = >= 2 designs returned).')
+        'non-increasing (score entries compared relatively, also on panels scaled by 2^20 / 2^-20), and with n_designs = k the result equals the first k designs of the same search with n_designs large (top-k of what the search ranks; all cases except the FULL(3) matrices with more than 2 deviations). evaluations / distinct_nontrivial count the search part (non-trivial = >= 2 designs returned).')
 ASSUMPTIONS = ['container alphabet: 2 keys, 5 items, capacities 0..3; searches: fixed integer panels']
 
 
@@ -116,6 +116,13 @@ def search_cases(tier, seed):
     for c in spaces.family_space(tier, seed, spaces.C02_SIX + ['n_geos_max', 'n_designs'], {'n_designs': 2},
                                  k_values=(1, 5), with5=False, dev_d=(2, 2)):
         out.append(c)
+    # responses in other units (x 2^20, x 2^-20): the continuous score entry becomes tiny / huge; order and cap must hold
+    for k in (20, -20):
+        p = {'name': 'B', 'G': 4, 'T': 12, 'scale_pow': k}
+        for c in spaces.with_methods(spaces.dev_configs(p, 1, spaces.C02_SIX + ['n_geos_max', 'n_designs'], base_kw={'n_designs': 3},
+                                                        k_values=(1, 5, 50), with_matrix_level=False)):
+            if spaces.precondition_ok(c):
+                out.append(c)
     return out
 
 
@@ -123,6 +130,18 @@ def run_case(case):
     obs = sc.observe(case, want_admitted=False)
     viol = sc.oracle_ordered_capped(case, obs)
     nd = len(obs['designs'] or ())
+    k = case['kw'].get('n_designs', 1)
+    if obs['exc'] is None and k <= 5 and (case['panel']['G'] != 3 or case.get('deviations', 0) <= 2):
+        # the cap keeps the TOP k of what the search ranks: same search with n_designs large, first k score tuples
+        full = sc.observe(dict(case, kw=dict(case['kw'], n_designs=100000)), want_admitted=False)
+        if full['exc'] is None:
+            exp = [d['score'] for d in full['designs'][:k]]
+            got = [d['score'] for d in obs['designs']]
+            if len(got) != len(exp) or any(not sc.close(a, b, abs_tol=0.0) for x, y in zip(got, exp) for a, b in zip(x, y)):
+                viol.append({'key': 'C14:search:not-the-top-k', 'msg': '%s with n_designs=%d returns scores %s; the %d best of the %d designs the same '
+                             'search ranks with n_designs large are %s' % (case['method'], k, got, k, len(full['designs']), exp)})
+        elif full['exc']['type'] != 'ValueError':
+            pass
     return {'viol': viol, 'nontrivial': nd >= 2, 'outcome': [obs['exc']['type'] if obs['exc'] else 'ok', min(nd, 5),
                                                              case['kw'].get('n_designs', 1)],
             'counts': {'designs_checked': nd, 'results_at_cap': int(nd == case['kw'].get('n_designs', 1))}}
